@@ -83,7 +83,8 @@ Proof.
   split; intros H.
   - apply (flagged_obs_excluded BHang V_HANG _ (init_ms r (negb (is_nil stored)))) in H.
     + apply H. apply conn_monitors_hold.
-    + intros m'. cbn [mstep]. rewrite flag_bit. cbn. apply orb_true_r.
+    + intros m'. cbn [mstep]. cbv zeta. rewrite flag_bit. apply orb_true_iff. left.
+      rewrite flag_bit. cbn. apply orb_true_r.
   - apply (flagged_obs_excluded BFuel V_HANG _ (init_ms r (negb (is_nil stored)))) in H.
     + apply H. apply conn_monitors_hold.
     + intros m'. cbn [mstep]. rewrite flag_bit. cbn. apply orb_true_r.
